@@ -99,7 +99,9 @@ def case_run(case):
     marker = 'push("seen", line_number())'
     match = f"{marker} {comp}" if case["place"] == "last" else f"{comp} {marker}"
     vm = ", ".join(case["tokens"]) if case["tokens"] is not None else None
-    text = (f"~ validation-mode: {vm} ~ " if vm else "") + f"${path}[1*][{match}]"
+    # one case in four scans from line 0: the header record then is the first offending line (its cells are not numbers)
+    lo = 0 if case.get("from0") else 1
+    text = (f"~ validation-mode: {vm} ~ " if vm else "") + f"${path}[{'*' if lo == 0 else '1*'}][{match}]"
     out, p = real_run.run_single(text, "collect", policy=case["policy"])
     res = {"case": case, "disagree": [], "oracle": [], "text": text}
     if "parse_error" in out:
@@ -112,14 +114,14 @@ def case_run(case):
     fl = eff("fail" in pol, ov["fail"])
     pr = eff("print" in pol, ov["print"])
     co = "collect" in pol
-    bad = sorted(case["bad"])
+    bad = sorted(set(case["bad"]) | ({0} if lo == 0 else set()))
     first = bad[0] if bad else None
     # which lines are evaluated
     if bad and (r or st):
-        want_calls = list(range(1, first + 1))
+        want_calls = list(range(lo, first + 1))
         handled_lines = [first]
     else:
-        want_calls = list(range(1, n + 1))
+        want_calls = list(range(lo, n + 1))
         handled_lines = bad
     calls = [c["idx"] for c in out["calls"]]
     if calls != want_calls:
@@ -208,5 +210,5 @@ def gen_run_cases(seed, tier):
         nb = r.choice([0, 1, 1, 1, 2])
         bad = sorted(r.sample(range(1, n + 1), min(nb, n)))
         cases.append({"policy": pol, "tokens": toks, "kind": r.choice(list(KINDS)), "n": n, "bad": bad,
-                      "place": r.choice(["first", "last"])})
+                      "place": r.choice(["first", "last"]), "from0": r.random() < 0.25})
     return cases
